@@ -33,6 +33,7 @@ def corpus(tier, seed, names, salt="pipe"):
     streams.append(("programs", ["S " + gen_programs.hexcp(p) for p in progs]))
     streams.append(("mutated_programs", ["S " + gen_programs.hexcp(gen_programs.mutate_program(rng, p)) for p in progs[: len(progs) // 2]]))
     streams.append(("char_soup", ["S " + gen_programs.hexcp(gen_programs.char_soup(rng)) for _ in range(100000 if tier == "thorough" else 15000)]))
+    streams.append(("literal_soup", ["S " + gen_programs.hexcp(gen_programs.literal_soup(rng)) for _ in range(60000 if tier == "thorough" else 12000)]))
     return streams
 
 
